@@ -39,6 +39,7 @@ OPCODE = dict(enable_fit=0, disable_fit=1, set_mode=2, set_boundary=3, set_facto
 #   writes the WORLD `w : W`, the attribute values behind them), ρ prior objects (opaque: constructors, `prior`, `priorMode`
 #   are function parameters, tied to taurex/core/priors.py by Props/C08Src.lean).
 _OPT = 'taurex/optimizer/optimizer.py'
+_PP = 'taurex/parameter/parameterparser.py'
 _TV = {'ν': 'deq', 'L': '', 'G': dict(call=('read', [], 'α'), lean='call_fget'),
        'S': dict(call=('write', ['α'], 'unit'), lean='call_fset'), 'ρ': '', 'W': ''}
 _TY = {'T7': '($ν, $L, $G, $S, str, bool, (α, α))', 'T4': '($ν, $L, $G, bool)'}
@@ -88,6 +89,15 @@ SRC_SPECS = [
     _m('set_factor_boundary', params=dict(parameter='$ν', factors='(α, α)'), state=_FP),
     _m('set_mode', params=dict(parameter='$ν', new_mode='str'), state=_FP),
     _m('set_prior', params=dict(parameter='$ν', prior='$ρ'), state=['self._user_priors', 'self._fit_priors']),
+    # the glue between an input file and the optimizer (taurex/parameter/parameterparser.py), dialect `dyn`
+    # (harness/translate_dyn.py): tied to TaurexModel/FittingSection.lean in Props/C07Src.lean (oracle: Proofs/C07SrcFitting.lean)
+    dict(module=_PP, cls='ParameterParser', func='generate_fitting_parameters', lean='generate_fitting_parameters',
+         callname='generate_fitting_parameters', dialect='dyn'),
+    dict(module=_PP, cls='ParameterParser', func='generate_derived_parameters', lean='generate_derived_parameters',
+         callname='generate_derived_parameters', dialect='dyn'),
+    dict(module=_PP, cls='ParameterParser', func='setup_optimizer', lean='setup_optimizer', dialect='dyn',
+         calls={'self.generate_fitting_parameters': 'generate_fitting_parameters',
+                'self.generate_derived_parameters': 'generate_derived_parameters'}),
 ]
 
 
